@@ -307,3 +307,158 @@ def run_C16(ctx):
     ctx.k_checks["oracle-no-panic"] = (bad == 0, 2 * len(cases))
     cov(ctx, cases, impl, "histories with boundary arguments (0, 1, 2, purged-1..purged+1, last-1..last+2, 2^63, 2^64-2, 2^64-1) for truncate/read/purge/commit/append/save_vote injected at random points, run on a debug (overflow checks on) and a release build under catch_unwind; non-trivial = contains rotation or a refused operation")
     return core.finish(ctx, proof)
+
+
+core.register("C11", "Props.C11", "theories/Props/C11.vo",
+              ["C11_idle_disk_is_journal", "C11_invariant", "C11_structure", "C11_write_appends",
+               "C11_rotation", "C11_on_disk_size"])
+
+
+def parse_stat_chunks(f):
+    """stat field -> (closed [(id, recs, start, end, size, state)], open (..))"""
+    def one(t):
+        head, st = t.split(",{", 1)
+        a = [int(x) for x in head.split(",")]
+        return a + [st.rstrip("}")]
+    cl = f[f.index("closed=[") + 8:f.index("] open=")]
+    closed = [one(t) for t in cl.split(";") if t]
+    op = f[f.index("] open=") + 7:f.index(" cache=")]
+    return closed, one(op)
+
+
+def state_str(st):
+    v, l, c, p, u = st
+    return gen.s_state((v, l, c, p, u))
+
+
+def oracle_c11(case, a):
+    """the property itself, from the implementation's output and raw files only"""
+    f = fields(a)
+    ops = ["open"] + [o.strip() for o in case.split("|", 1)[1].split(";")]
+    cfg = case.split("|")[0].split()[1:]
+    max_recs, max_size = int(cfg[2]), int(cfg[3])
+    if not f[-1].startswith("disk ") or len(f) != len(ops):
+        return None
+    import p_recover
+    disk = p_recover.parse_disk(f[-1])
+    try:
+        files = [(fid, data, pydec.decode_all(data)) for fid, data in disk]
+    except Exception as e:
+        return "a chunk file does not parse with the independent decoder: %r" % (e,)
+    # (a) names abut, (b) heads
+    for j in range(len(files) - 1):
+        if files[j + 1][0] != files[j][0] + len(files[j][1]):
+            return "files do not abut: %d + %d != %d" % (files[j][0], len(files[j][1]), files[j + 1][0])
+    for fid, data, rs in files:
+        if not rs or rs[0][0][0] != "S":
+            return "file %d does not start with a state snapshot" % fid
+    stat_k = max(i for i, x in enumerate(f) if x.startswith("stat "))
+    closed, op = parse_stat_chunks(f[stat_k])
+    chunks = closed + [op]
+    if [c[0] for c in chunks] != [x[0] for x in files]:
+        return "the files on disk %s are not the chunks reported by stat %s" % ([x[0] for x in files], [c[0] for c in chunks])
+    for c, (fid, data, rs) in zip(chunks, files):
+        if c[1] != len(rs) or c[3] != fid + len(data) or c[4] != len(data):
+            return "stat of chunk %d (records %d, end %d, size %d) does not match its file (%d records, %d bytes)" % (fid, c[1], c[3], c[4], len(rs), len(data))
+    for j in range(len(closed)):
+        if state_str(files[j + 1][2][0][0][1]) != closed[j][5]:
+            return "head snapshot of file %d is not the closing state of chunk %d" % (files[j + 1][0], closed[j][0])
+    # (f) rotation discipline
+    def full(n, sz):
+        return n >= max_recs or sz >= max_size
+    for c, (fid, data, rs) in zip(closed, files):
+        n, sz, l = len(rs), len(data), rs[-1][2]
+        if not full(n, sz):
+            return "chunk %d was closed below both limits (%d records, %d bytes)" % (fid, n, sz)
+        if n > 2 and full(n - 1, sz - l):
+            return "chunk %d was not closed as soon as it reached a limit (%d records, %d bytes)" % (fid, n, sz)
+    n, sz = op[1], op[4]
+    if full(n, sz) and n != 1:
+        return "the open chunk has reached a limit but was not closed (%d records, %d bytes)" % (n, sz)
+    # (e) reported size
+    size_k = [i for i, x in enumerate(f) if x.startswith("size ")]
+    if size_k and int(f[size_k[-1]].split()[1]) != sum(len(x[1]) for x in files):
+        return "on_disk_size %s != bytes of the retained files %d" % (f[size_k[-1]], sum(len(x[1]) for x in files))
+    # (d) returned segments locate the record; (c) one record per accepted write, in call order
+    pos = {}
+    seq = []
+    for fid, data, rs in files:
+        for (r, o, l) in rs[1:]:
+            pos[(fid + o, l)] = r
+            seq.append((fid + o, l, r))
+    first = files[0][0]
+    expect = []       # (offset, record kind/key) for accepted journaling calls whose record lies in a retained file
+    for k, o in enumerate(ops):
+        if not o or o[0] not in "VATPCU" or not f[k].startswith("ok "):
+            continue
+        t = o.split()
+        off, ln = int(f[k].split()[1]), int(f[k].split()[2])
+        if off < first:
+            continue
+        r = pos.get((off, ln))
+        if t[0] == "P" and (r is None or r[0] != "P" or r[1] != (int(t[1]), int(t[2]))):
+            continue        # purge at an already purged index: journals nothing, returns the last segment
+        if t[0] == "P" and any(e[0] == off for e in expect):
+            continue        # a repeated purge returns the segment of the earlier purge record again
+        if r is None:
+            return "the segment (%d,%d) returned by `%s` is not a record boundary of the journal" % (off, ln, o[:60])
+        want = None
+        if t[0] == "V":
+            want = ("V", (int(t[1]), int(t[2])))
+        elif t[0] == "A":
+            want = ("A", (int(t[-3]), int(t[-2])), bytes.fromhex(t[-1][1:]))
+        elif t[0] == "C":
+            want = ("C", (int(t[1]), int(t[2])))
+        elif t[0] == "P":
+            want = ("P", (int(t[1]), int(t[2])))
+        if want is not None and r != want:
+            return "the segment returned by `%s` holds %r" % (o[:60], r)
+        if t[0] == "T" and r[0] != "T":
+            return "the segment returned by truncate holds %r" % (r,)
+        if t[0] == "U" and (r[0] != "S" or r[1][4] != (None if t[1] == "-" else bytes.fromhex(t[1][1:]))):
+            return "the segment returned by save_user_data holds %r" % (r,)
+        n_entries = (len(t) - 1) // 3 if t[0] == "A" else 1
+        expect.append((off, ln, n_entries))
+    # every record of the retained files at or after the first returned segment is accounted for by exactly one call
+    if expect and first > 0 and expect[0][2] > 1:
+        expect = expect[1:]      # a multi-entry append that straddles the oldest retained file
+    if expect:
+        # the first expected call may be a multi-entry append: its first record lies n-1 records before its returned segment
+        idx = [i for i, (o, l, r) in enumerate(seq) if (o, l) == (expect[0][0], expect[0][1])]
+        if not idx:
+            return "the segment %s returned by a write is not a record of the journal" % (expect[0][:2],)
+        start = idx[0] - (expect[0][2] - 1)
+        if start < 0:
+            return "fewer records before the first returned segment than the append wrote"
+        lo = seq[start][0]
+        have = [(o, l) for (o, l, r) in seq if o >= lo]
+        want_n = sum(n for (_, _, n) in expect)
+        # multi-entry appends return only the last segment: compare counts, and positions of the returned ones in order
+        if len(have) != want_n:
+            return "%d records in the journal from offset %d on, but %d accepted writes" % (len(have), lo, want_n)
+        it = iter(have)
+        for (off, ln, n) in expect:
+            for _ in range(n):
+                cur = next(it)
+            if cur != (off, ln):
+                return "records are not in call order: expected the record of a call at %s, found %s" % ((off, ln), cur)
+    return None
+
+
+def run_C11(ctx):
+    proof = core.proof_stage("C11")
+    core.builds()
+    n = ctx.scale(500, 5000)
+    cases = corpus("C11") + gen_cases(ctx, n, 5, ctx.scale(60, 250), big_cache=False, p_reject=0.08,
+                                      finals=["F 1", "I", "G", "Z", "K"])
+    impl, model = seq_run(ctx, cases)
+    bad = 0
+    for c, a in zip(cases, impl):
+        why = oracle_c11(c, a)
+        if why:
+            bad += 1
+            if bad <= 3:
+                ctx.fail("oracle", "C11 oracle: " + why, dict(kind="seq", case=c, detail=why))
+    ctx.k_checks["oracle-journal-layout"] = (bad == 0, len(cases))
+    cov(ctx, cases, impl, "histories x chunk limits incl. 0 and 1 (records) and 0, 1, 60, 150, 400 (bytes); after flush + idle the raw chunk files are decoded by an independent decoder: names abut, heads are the closing states, one record per accepted write in call order, every returned segment locates its record, rotation exactly at the limit, on_disk_size; non-trivial = contains a rotation or a refused operation")
+    return core.finish(ctx, proof)
